@@ -48,6 +48,22 @@ int main(int argc, char** argv) {
     R.check("none_of(sub) with the same sub-matcher variable (\"" + v + "\")", in, param_matches(outer2, std::ref(x)), x != v, "str");
     R.check("sub itself after being nested twice (\"" + v + "\")", in, param_matches(sub, std::ref(x)), x == v, "str");
   }
+  // ---- a named matcher object used under * and ! keeps its operand for the next use (operand with a move that differs from a copy) ----
+  {
+    const std::string token(40, 't'), other(40, 'o');
+    for (const std::string* sub : {&token, &other}) {
+      auto is_token = eq(token); auto has_t = re("tt");
+      auto d1 = *is_token; auto n1 = !is_token; auto d2 = *is_token; auto dn = *!is_token; auto r1 = *has_t; auto r2 = !has_t; auto r3 = *has_t;
+      const std::string* ps = sub; const std::string& x = *sub; bool same = x == token; std::string in = same ? "the token" : "another string";
+      R.check("*named (first use)", "string* -> " + in, param_matches(d1, std::ref(ps)), same, "named"); R.check("!named (after *named)", in, param_matches(n1, std::ref(x)), !same, "named");
+      R.check("*named (second use)", "string* -> " + in, param_matches(d2, std::ref(ps)), same, "named"); R.check("*!named", "string* -> " + in, param_matches(dn, std::ref(ps)), !same, "named");
+      R.check("named itself after four uses", in, param_matches(is_token, std::ref(x)), same, "named");
+      R.check("*re (first use)", "string* -> " + in, param_matches(r1, std::ref(ps)), same, "named"); R.check("!re (after *re)", in, param_matches(r2, std::ref(x)), !same, "named"); R.check("*re (second use)", "string* -> " + in, param_matches(r3, std::ref(ps)), same, "named");
+      auto anyn = any_of(is_token, eq(std::string("zz"))); auto alln = all_of(is_token); auto nonen = none_of(is_token);
+      R.check("any_of(named,...)", in, param_matches(anyn, std::ref(x)), same, "named"); R.check("all_of(named)", in, param_matches(alln, std::ref(x)), same, "named"); R.check("none_of(named)", in, param_matches(nonen, std::ref(x)), !same, "named");
+      R.check("named itself after the combinators", in, param_matches(is_token, std::ref(x)), same, "named");
+    }
+  }
   // ---- doubles incl. NaN (a partially ordered domain: x <= v is not !(v < x)) ----
   {
     const double nan = std::numeric_limits<double>::quiet_NaN();
